@@ -207,6 +207,13 @@ def scenario (name : String) (p : Json) : Option Scn :=
   | "service1_from_tc" => some {
       setup := do pure [("tc", ← mkTc p)]
       act := fun r => do pure [("tm", ← service1FromTc (← root r "tc") (pn p "apid2") (pn p "sub") (pn p "tslen"))] }
+  | "service1_with_params" => some {
+      setup := do
+        let tc ← mkTc p
+        let rid ← reqIdFromPusTc tc
+        let vp ← newVerifParams rid
+        pure [("tc", tc), ("vp", vp)]
+      act := fun r => do pure [("tm", ← newService1Tm (← root r "vp") (pn p "apid2") (pn p "sub") (pn p "tslen"))] }
   | "verificator_add_tc" => some {
       setup := do
         let v ← newVerificator
@@ -214,7 +221,10 @@ def scenario (name : String) (p : Json) : Option Scn :=
         pure [("v", v), ("tc", tc)]
       act := fun r => do pure [("key", ← verificatorAddTc (← root r "v") (← root r "tc"))] }
   | "tc_unpack" => some {
-      setup := do pure [("tc", ← mkTc p)]
+      setup := do
+        let tc ← mkTc p
+        tcPack tc                 -- the octets to decode come from `tc.pack()`, which fills the crc16 cache
+        pure [("tc", tc)]
       act := fun _ => do
         pure [("dec", ← unpackTc (pn p "service") (pn p "subservice") (pn p "apid") (pn p "count") (pn p "source_id") (pn p "ack") (pn p "dlen"))] }
   | "pdu_ctor" => k?.map fun k => {
@@ -237,7 +247,9 @@ def scenario (name : String) (p : Json) : Option Scn :=
       setup := confObjsPdu k p
       act := fun r => do
         let conf ← root r "conf"
-        pure [("pdu2", ← buildPdu k2 p [("conf", conf)])] }
+        -- the second PDU gets parameter objects of its own, built by the caller for it
+        let objs2 ← callerObjs k2 p
+        pure [("pdu2", ← buildPdu k2 p (("conf", conf) :: objs2))] }
   | "finished_success_pdu" => some {
       setup := do pure [("conf", ← mkConf p)]
       act := fun r => do pure [("pdu", ← finishedSuccessPdu (← root r "conf"))] }
@@ -266,10 +278,14 @@ def scenario (name : String) (p : Json) : Option Scn :=
             let t ← new ⟨.tlv, [], [6, pn p "v", 9]⟩
             finSet pdu (.faultLoc (some t))
             pure [("arg", t)]
-        | _ => do
+        | 2 => do
           let l ← tlvList (pn p "v")
           finSet pdu (.responses (some l))
-          pure [("arg", l)] }
+          pure [("arg", l)]
+        | _ => do
+          -- `pdu.file_store_responses = None`: the setter stores a NEW empty list
+          finSet pdu (.responses none)
+          pure [] }
   | "filedata_set" => some {
       setup := confObjsPdu .fileData p
       act := fun r => do
